@@ -260,3 +260,11 @@ package eni
 //@   requires l != nil && l.cond != nil && l.factory != nil
 //@   at call LoadNetworkInterface: ghost c07loaderr = (result2 != nil)
 //@ guard call syncIPLocked in sync: !c07loaderr
+
+//@ for C01 C06
+//@ # ---- frames: what the pool's release and commit steps may write ----
+//@ func Local.Release
+//@   requires l != nil && cni != nil
+//@   modifies IP.podID
+//@ func Set.Release
+//@   modifies IP.podID
